@@ -106,6 +106,10 @@ extern "C" void h_c12a_matcher_step()
     p.state_ = mp::expecting_separator_boundary;
     p.file_.reset(new cppcms::http::file());
     p.file_is_ready_ = true;
+    // the sink (memory buffer or temporary file) may run out of room after any number of bytes
+    unsigned limit = nondet_u8();
+    ASSUME(limit <= 16);
+    sink.limit = limit;
     char const *b = (char const *)chunk, *e = b + L;
     mp::parsing_result_type r = p.consume(b, e);
     // reference: first occurrence of B in S, and longest suffix of S that is a proper prefix of B
@@ -114,6 +118,22 @@ extern "C" void h_c12a_matcher_step()
         bool m = true;
         for (unsigned t = 0; t < bs; t++) if (S[j + t] != B[t]) m = false;
         if (m && first < 0) first = (int)j;
+    }
+    {
+        // bytes that have to reach the sink during this call: the content before the delimiter, or
+        // the stream minus the pending look-alike prefix
+        unsigned ov0 = 0;
+        for (unsigned k = 1; k < bs && k <= n; k++) {
+            bool m = true;
+            for (unsigned t = 0; t < k; t++) if (S[n - k + t] != B[t]) m = false;
+            if (m) ov0 = k;
+        }
+        unsigned due = first >= 0 ? (unsigned)first : n - ov0;
+        if (due > limit) {
+            CHECKM(r == mp::no_room_left, "the sink refused content bytes but the upload was not refused (delivered in part)");
+            WITNESS("sink full");
+            VERIF_END();
+        }
     }
     if (first >= 0) {
         CHECKM(r == mp::content_ready, "delimiter present in the stream but the part was not completed");
